@@ -399,3 +399,51 @@ fn admission(ctx: &mut Ctx, n: usize) {
     }
     ctx.flush_model("C04-marlin-admission");
 }
+
+/// C11 (model-backed): the challenges the verifier squeezes are the ones the prover squeezed, and
+/// the model consumes exactly as many; a proof verified under other challenges equals the model
+pub fn c11(ctx: &mut Ctx) {
+    let n = ctx.n(20, 250);
+    for i in 0..n {
+        let id = format!("C11/marlin-model/{}", i);
+        if !ctx.selected(&id) { continue; }
+        let mut rng = rng_for(ctx.seed, "C11/marlin-model", i as u64);
+        let npoly = range(&mut rng, 1, 3);
+        let c = match new_case(ctx, &mut rng, &id, npoly) { Some(c) => c, None => continue };
+        let cs = match c.comm_scalars() { Some(x) => x, None => continue };
+        // open_all queues marlin.open with the prover's recorded challenges (`used` = #squeezes)
+        let o = match open_all(ctx, &mut rng, &id, &c) { Ok(o) => o, Err(_) => continue };
+        if g1(o.w_s) != o.proof.w { continue; }
+        // check_scalar runs the verifier on a fresh sponge: its recorded challenges must be the prover's
+        let out = check_scalar(ctx, &id, &c, &c.vk, &cs, o.z, &o.values, o.w_s, o.proof.random_v);
+        if out != Outcome3::Accept {
+            ctx.rep.expect_fail(&id, "marlin/history-rejected/open", "honest proof rejected", replay(&c, &id, ctx.seed, ""));
+        }
+        // displaced: verifier sponge with other prior absorbs -> other challenges; decision from the
+        // implementation must equal the model's under the verifier's own challenges
+        {
+            use ark_crypto_primitives::sponge::CryptographicSponge;
+            use ark_poly_commit::PolynomialCommitment;
+            let mut vs = LogSponge::fresh();
+            vs.absorb(&vec![9u8; 4]);
+            vs.log.clear();
+            let comms = comms_from(&cs);
+            let r = guarded(|| PC::check(&c.vk, &comms, &o.z, o.values.iter().cloned(), &o.proof, &mut vs, None));
+            let xis = vs.challenges();
+            let outm = match &r {
+                Ok(Ok(b)) => ImplOutcome::Ok(vec![("b".into(), Expect::Bool(*b)), ("used".into(), Expect::Nat(xis.len()))]),
+                Ok(Err(e)) => ImplOutcome::Refuse(err_kind(e)),
+                Err(a) => ImplOutcome::Refuse(a.clone()),
+            };
+            let req = comms_args(c.base("marlin.check"), &cs).arg("z", crate::wire::fe(&o.z)).arg("vs", crate::wire::fes(&o.values))
+                .arg("w", crate::wire::fe(&o.w_s)).arg("rv", crate::wire::opt_fe(&o.proof.random_v)).arg("xis", crate::wire::fes(&xis));
+            ctx.ses.ask(&format!("{}/displaced", id), req, outm);
+            let nonconst = c.polys.iter().any(|p| p.polynomial().coeffs.len() > 1);
+            if nonconst && matches!(r, Ok(Ok(true))) {
+                ctx.rep.expect_fail(&id, "marlin/accepted-on-other-transcript/pre-state", "proof accepted under another transcript state", replay(&c, &id, ctx.seed, "displaced"));
+            }
+        }
+        ctx.rep.case(&format!("{} lock-step challenges={}", c.desc(), o.xis.len()), Some(format!("marlin-model/{}/{}", npoly, o.xis.len())));
+    }
+    ctx.flush_model("C11-marlin");
+}
